@@ -316,3 +316,28 @@ def acquire_owner(ctx, rule):
                        '(%s) only' % loop.func.qualname,
                        construct='caller of acquire_identity')
     ctx.require(count >= 1, 'a caller of acquire_identity', rule=rule)
+
+
+def loop_always_run(ctx, rule):
+    """The routine that schedules one partition hands its queue to the
+    placement loop on every path: the loop is where instances over the cap,
+    blacklisted or left without a server give up identity and placement, so
+    a cycle that returns before it ("nothing pending", "no server in the
+    partition") leaves them as they were."""
+    loop = PlacementLoop(ctx)
+    cell = ctx.index.get_class(K.SCHED, 'Cell')
+    callers = [f for f in cell.live_methods() if f is not loop.func and
+               K.func_calls_method(f, loop.func.name)]
+    ctx.require(callers, 'caller of %s' % loop.func.qualname, rule=rule)
+    for func in callers:
+        graph = ctx.cfg(func)
+        hits = [n for n, _c in K.nodes_calling(
+            graph, lambda c: K.is_meth(c, loop.func.name))]
+        path = K.find_path(graph.entry, [graph.exit],
+                           cut_node=lambda n: n in hits, follow_exc=False)
+        ctx.ob(rule, func, hits[0] if hits else None,
+               bool(hits) and path is None,
+               'the queue of the partition goes through the placement loop '
+               '(%s) on every path of %s' % (loop.func.name, func.name),
+               path=K.describe(path) if path else None,
+               construct='placement loop always run by %s' % func.name)
